@@ -2888,6 +2888,27 @@ impl<'a> FnTr<'a> {
                     let (a, _) = self.ex(&m.args[0], env, st, Some((**inner).clone()))?;
                     Ok((format!("(match {} with | some v => v | none => {})", r, a), (**inner).clone()))
                 }
+                // builder T: `opt.unwrap_or_else(|| e)`: `e` is evaluated (with its checks) only on `None`
+                "unwrap_or_else" => {
+                    let cl = match m.args.first() {
+                        Some(Expr::Closure(cl)) if cl.inputs.is_empty() => cl,
+                        _ => return Err("unwrap_or_else: argument is not a zero-parameter closure".into()),
+                    };
+                    let mut env_c = env.clone();
+                    let mut st2: Stmts = vec![];
+                    let (a, _) = self.ex(&cl.body, &mut env_c, &mut st2, Some((**inner).clone()))?;
+                    if st2.is_empty() {
+                        Ok((format!("(match {} with | some v => v | none => {})", r, a), (**inner).clone()))
+                    } else {
+                        let n = self.fresh();
+                        let arms = vec![
+                            ("some v__".to_string(), Seq { stmts: vec![], tail: Tail::Val("v__".into()) }),
+                            ("none".to_string(), Seq { stmts: st2, tail: Tail::Val(a) }),
+                        ];
+                        st.push((n.clone(), Rhs::Br(Box::new(Tail::Match(r, arms)))));
+                        Ok((n, (**inner).clone()))
+                    }
+                }
                 "unwrap" | "expect" => Ok((self.act(st, r), (**inner).clone())),
                 // combinators with a pure one-parameter closure
                 "filter" | "map" => {
